@@ -5,7 +5,7 @@ from typing import List, Optional, Tuple, Iterator, Dict, Set, Iterable
 
 from .core import (Index, Module, FuncDef, ClassDef, VarDef, ParamDef, LocalDef, External, ModuleRef, Def,
                    AnalysisError, dotted_name, unparse, walk_own, ancestors, parent)
-from .absint import Interp, Hooks, State, Path, K, Sym, Obj, Exc, FuncVal, BoundMethod, ListVal
+from .absint import Interp, Hooks, State, Path, K, Sym, Obj, Exc, FuncVal, BoundMethod, ListVal, wrap, AVal
 from .fold import Folder, Record, EnumMember, Ref, is_unknown
 
 
@@ -273,3 +273,36 @@ def is_abstract_body(fd: FuncDef) -> bool:
 
 def mentions_name(node, name: str) -> bool:
     return any(isinstance(n, ast.Name) and n.id == name for n in ast.walk(node))
+
+
+def constructed(ix: Index, v):
+    """(class key, positional arg values, keyword arg values, parameter-name -> value) for a value built by a
+    constructor call: either an opaque `new:` value or a constant tuple record"""
+    if isinstance(v, K) and isinstance(v.v, Record):
+        rec = v.v
+        byname = {k: wrap(x) for k, x in rec.args.items()}
+        return rec.cls.key, list(byname.values()), {}, byname
+    if isinstance(v, Sym) and v.origin and v.origin[0] == 'call':
+        key = v.origin[1]
+        args, kwargs = list(v.origin[2]), dict(v.origin[3])
+        byname = dict(kwargs)
+        d = ix.try_lookup(key) if ':' in key else None
+        if isinstance(d, ClassDef):
+            ctor = ctor_of(ix, d)
+            if ctor is not None:
+                names = [p.arg for p in ctor.positional_params()[1:]]
+                for n, a in zip(names, args):
+                    byname[n] = a
+        elif isinstance(d, FuncDef):
+            names = [p.arg for p in d.positional_params()]
+            if d.cls is not None and not d.is_static:
+                names = names[1:]
+            for n, a in zip(names, args):
+                byname[n] = a
+        return key, args, kwargs, byname
+    return None
+
+
+def constructed_class(ix: Index, v) -> Optional[str]:
+    r = constructed(ix, v)
+    return r[0] if r else None
